@@ -148,7 +148,7 @@ def optable(ctx):
     defs = ('ASSUME PrintT("INFO " \\o ToJson([ins |-> [b \\in 1..256 |-> Info[b-1].ins], '
             'outs |-> [b \\in 1..256 |-> Info[b-1].outs], imm |-> [b \\in 1..256 |-> Info[b-1].imm], '
             'intro |-> [b \\in 1..256 |-> Info[b-1].intro], forks |-> Forks]))\n')
-    run = vf.tlc(ctx, "Opcodes", vf.cfg({"MaxHist": 0, "TrackPrev": "FALSE"}, view=None, defs=defs),
+    run = vf.tlc(ctx, "Opcodes", vf.cfg({"MaxHist": 0, "TrackPrev": "FALSE", "TrackRan": '"none"'}, view=None, defs=defs),
                  name="insp_optable", workers=1, coverage=False)
     t = run.lines["INFO"][0]
     if len(t["ins"]) != 256 or "CANCUN" not in t["forks"]:
